@@ -168,6 +168,8 @@ def gen_graph(rng, stream):
     g = {"names": names, "decl": decl, "tags": tags, "build": build, "top": [top, topv], "stream": stream}
     if stream == "cf" and rng.random() < 0.3:
         add_unsetup_lines(rng, g)
+    if stream == "cf" and not lonely and rng.random() < 0.18:
+        add_top_unsetup_lines(rng, g)
     return g
 
 
@@ -206,6 +208,61 @@ def add_unsetup_lines(rng, g):
         x = rng.choice(withdeps) if withdeps and rng.random() < 0.7 else rng.choice(below)
         lines.insert(rng.randint(i + 1, len(lines)), {"k": "unsetup", "optional": rng.random() < 0.5, "name": x,
                                                        "flags": ["-j"] if rng.random() < 0.65 else []})
+
+
+def level0(lines, lo=0):
+    """positions >= lo at which a line can be inserted outside every `if` block of the table"""
+    out, depth = [], 0
+    for i in range(len(lines) + 1):
+        if i < len(lines):
+            t = render_line(lines[i]).split("#")[0].strip()
+            closes, opens = t.startswith("}"), t.endswith("{")
+        else:
+            closes = opens = False
+        if depth == 0 and not closes and i >= lo:
+            out.append(i)
+        depth += (1 if opens else 0) - (1 if closes else 0)
+    return out or [len(lines)]
+
+
+def add_top_unsetup_lines(rng, g):
+    """unsetupRequired / unsetupOptional lines in the table that is going to be expanded (D73: the expander took them for
+    setup lines).  Three shapes that leave the build environment complete: (a) `unsetupOptional(y)` of a product that is not
+    there; (b) a leaf product m that nothing else in the closure needs, set up by an optional line of the top table (added if
+    there is none) and taken away again by a later line; (c) a leaf product of the closure taken away and required again at
+    the end of the table."""
+    topn, topv = g["top"]
+    build = g["build"]
+    lines = [l for n, v, l in g["decl"] if n == topn and v == topv][0]
+    leaves = [m for m in g["names"][1:] if m in build and not reach(g, m, build[m])]
+    r = rng.random()
+    if r < 0.35 or not leaves:
+        lines.insert(rng.choice(level0(lines)), {"k": "unsetup", "optional": True, "name": rng.choice(ABSENT), "flags": [], "top": "a"})
+        return
+    if r < 0.7:
+        for m in rng.sample(leaves, len(leaves)):
+            own = [i for i, l in enumerate(lines) if l["k"] == "setup" and l["name"] == m]
+            needed = set()
+            for l in lines:
+                if l["k"] == "setup" and l["name"] != m and l["name"] in build and "--external" not in (l.get("flags") or []):
+                    if "-j" not in (l.get("flags") or []):
+                        needed |= set(reach(g, l["name"], build[l["name"]]))
+            if m in needed or len(own) > 1 or (own and (not lines[own[0]]["optional"] or (lines[own[0]].get("flags") or []))):
+                continue
+            if not own:
+                lines.insert(rng.choice(level0(lines)), {"k": "setup", "optional": True, "name": m, "spec": None, "flags": [], "deco": {}})
+                own = [i for i, l in enumerate(lines) if l["k"] == "setup" and l["name"] == m]
+            lines.insert(rng.choice(level0(lines, own[0] + 1)), {"k": "unsetup", "optional": rng.random() < 0.4, "name": m,
+                                                               "flags": ["-j"] if rng.random() < 0.3 else [], "top": "b"})
+            return
+    closure = reach(g, topn, topv)
+    cands = [m for m in leaves if m in closure]
+    if not cands:
+        lines.append({"k": "unsetup", "optional": True, "name": rng.choice(ABSENT), "flags": [], "top": "a"})
+        return
+    m = rng.choice(cands)
+    lines.append({"k": "unsetup", "optional": rng.random() < 0.5, "name": m, "flags": [], "top": "c"})
+    lines.append({"k": "setup", "optional": False, "name": m, "spec": None, "flags": [], "deco": {}})
 
 
 def has_unsetup(case):
